@@ -97,6 +97,7 @@ def gen_case(rng: random.Random, cfg: str, kind: str) -> dict:
         "reverse_late": rng.random() < 0.5,
         "close_pending": rng.choice([None, None, None, "r", "s", "rs"]),
         "close_how": rng.choice(["plain", "cancelled-scope", "expired-deadline", "racing-send"]),
+        "cancelled_sends": rng.choice([0, 0, 0, 0, 10, 30]),
     }  # fmt: skip
 
 
@@ -118,6 +119,8 @@ def execute(case: dict) -> dict:
     viol: list = []
     out: dict = {"viol": viol, "windows": {}, "nontrivial": False, "inconclusive": None,
                  "bytes": 0, "max_inflight": 0}  # fmt: skip
+    col_max: dict = {}
+    out["maxima"] = col_max
 
     def window(name: str, n: int = 1) -> None:
         out["windows"][name] = out["windows"].get(name, 0) + n
@@ -338,6 +341,9 @@ def execute(case: dict) -> dict:
         if case.get("close_pending"):
             await probe_close_pending(conn, listener, case["close_pending"])
 
+        if case.get("cancelled_sends"):
+            await probe_cancelled_sends(conn, listener, case["cancelled_sends"])
+
         for x in (c, s):
             try:
                 await x.aclose()
@@ -457,6 +463,51 @@ def execute(case: dict) -> dict:
 
         await b.aclose()
 
+    async def probe_cancelled_sends(conn, listener, n: int) -> None:  # noqa: ANN001
+        """the peer never reads; the writer fills the kernel buffers and then tries n more
+        sends of 256 KiB under a 2 ms timeout each.  Every one of them times out - and none
+        of them may leave its item behind in a user-space buffer: at most one item (the one
+        whose send() first found the kernel full) may be pending there"""
+        a, b = await pair(conn, listener)
+        item = b"y" * 262144
+        try:
+            with anyio.move_on_after(10):
+                completed = 0
+                while True:
+                    with anyio.move_on_after(0.05) as sc:
+                        await a.send(item)
+
+                    if sc.cancelled_caught:
+                        break
+
+                    completed += 1
+
+                timed_out = 0
+                for _ in range(n):
+                    with anyio.move_on_after(0.002) as sc:
+                        await a.send(item)
+
+                    timed_out += sc.cancelled_caught
+
+            window("cancelled_sends_probe")
+            tr = getattr(a, "_transport", None)
+            if tr is None:
+                window("cancelled_sends_probe:no-user-space-buffer(raw socket)")
+            else:
+                buffered = tr.get_write_buffer_size()
+                col_max["user_space_write_buffer_after_cancelled_sends"] = max(
+                    col_max.get("user_space_write_buffer_after_cancelled_sends", 0), buffered)
+                if timed_out and buffered > 2 * len(item) + SLACK:
+                    viol.append(("unbounded-buffering:cancelled-sends-pile-up-in-user-space",
+                                 {"timed_out_sends": timed_out, "buffered_bytes": buffered,
+                                  "item": len(item)}))  # fmt: skip
+        finally:
+            for x in (a, b):
+                try:
+                    await x.aclose()
+                except BaseException:  # noqa: BLE001
+                    pass
+
     async def probe_close_pending(conn, listener, pend: str) -> None:  # noqa: ANN001
         """a third task closes the stream while a receive() ("r"), a back-pressured send()
         ("s") or both ("rs") are blocked on it: the stream is locally closed from then on,
@@ -573,6 +624,13 @@ def all_cases(tier: str, seed: int):  # noqa: ANN201
                        "max_bytes": [65536], "stall": "none", "reverse": [500, 1], "eof": "send_eof",
                        "probe_closed": False, "probe_busy": False, "reverse_late": True}  # fmt: skip
 
+    # sends that time out against a peer that does not read
+    for cfg in ("asyncio", "uvloop"):
+        for kind in ("tcp", "unix"):
+            yield {"cfg": cfg, "kind": kind, "reader": "connected", "sizes": [100],
+                   "max_bytes": [65536], "stall": "none", "reverse": [], "eof": "aclose",
+                   "probe_closed": False, "probe_busy": False, "cancelled_sends": 40}  # fmt: skip
+
     # the closed-stream probe with every way of closing
     for cfg in ("asyncio", "uvloop"):
         for kind in ("tcp", "unix"):
@@ -619,6 +677,9 @@ def judge(case: dict, col) -> None:  # noqa: ANN001
     col.count(f"cfg:{case['cfg']}:{case['kind']}")
     col.count("bytes_moved", res["bytes"])
     col.maximum(f"max_inflight:{case['kind']}:{case['reader']}", res["max_inflight"])
+    for k, v in res.get("maxima", {}).items():
+        col.maximum(k + ":" + case["kind"], v)
+
     if res["inconclusive"]:
         col.count("inconclusive_sessions")
 
